@@ -1,16 +1,13 @@
 (* C03 -- A single connective infers exactly the feasible interval hull (default alpha = 1).
    F = assignments inside the operand bounds whose (weighted Lukasiewicz) truth value lies inside the connective's
    bounds; the step = upward, then downward from the updated connective bounds.
-   PROVED for every arity, all weights >= 0, any bias:
-     (a) not tighter: every feasible assignment survives the step, for the connective and for every operand
-         (And, Or, Implies);
+   PROVED for And, Or and Implies, every arity, all weights >= 0, any bias, alpha = 1:
+     (a) not tighter: every feasible assignment survives the step, for the connective and for every operand;
      (b) not looser, connective: both ends of the connective's new interval are attained by feasible assignments
-         (And; Or by duality) -- explicit witnesses on the segment between the corners of the operand box;
-     (c) no feasible assignment (operand box non-empty): the connective's new bounds are crossed = contradiction (And).
-     (b') not looser, operands of an And: both ends of every positively weighted operand's new interval are attained.
-   NOT PROVED (partial): operand attainment for Or / Implies (`C03_operands_attained_statement`, they are the
-   negation-duals of the And case) and (b),(c) for Implies.  These are checked on the implementation against an
-   independent exact interval-arithmetic oracle by the check. *)
+         (explicit witnesses on the segment between the corners of the operand box; Or / Implies by duality);
+     (b') not looser, operands: both ends of EVERY operand's new interval are attained (zero-weight operands included);
+     (c) no feasible assignment (operand box non-empty): the connective's new bounds are crossed and is_contradiction
+         reports it. *)
 From LNN Require Import Num Neuron Node PropEngine.
 From LNN.proofs Require Import NodeProofs NeuronProofs PropProofs MonoProofs EvalProofs HullProofs HullOperandProofs HullDualProofs.
 Open Scope Q_scope.
@@ -71,6 +68,21 @@ Proof.
     apply (imp_infeasible_contradiction p w0 w1 Hws H0 H1 y Hy b0 b1 Ho Hn).
 Qed.
 Print Assumptions C03_infeasible_contradiction.
+
+(* ... and that crossing is REPORTED: at the default alpha = 1 there is no same-region tolerance, so is_contradiction()
+   of the connective (hence has_contradiction() of a model containing it) is true *)
+Theorem C03_infeasible_reported : forall c p y bs, conn_wf c p (length bs) -> wf_bnd y -> Forall (fun b => lo b <= hi b) bs ->
+  (forall xs, ~ feasible c p y bs xs) -> is_contra 1 (step_y c p y bs) = true.
+Proof.
+  intros c p y bs Hc Hy Ho Hn.
+  pose proof (C03_infeasible_contradiction c p y bs Hc Hy Ho Hn) as Hx.
+  assert (Hw : wf_bnd (step_y c p y bs)).
+  { unfold step_y, agg_bnd, wf_bnd; cbn [lo hi]. split; apply clamp01_range. }
+  destruct Hw as [[? ?] [? ?]].
+  apply is_contra_iff; [unfold alpha_ok; lra | split; assumption | split; assumption |].
+  unfold crossed_outside_tolerance. split; [exact Hx|]. split; intros [? ?]; lra.
+Qed.
+Print Assumptions C03_infeasible_reported.
 
 (* every value between the truth values of the two corners of the operand box is attained inside the box *)
 Theorem C03_segment : forall p bs v, nonneg (weights p) -> Forall (fun b => lo b <= hi b) bs ->
